@@ -26,6 +26,8 @@ CONSTANTS Names,          \* set of name labels (strings)
           OnlyValid,      \* TRUE: only calls that are valid in the current state (C01); FALSE: all (C09)
           AsBuiltTooLong, AsBuiltShort
 
+\* long random walks (Writer.long.cfg overrides it): with OnlyValid, finalize is not offered before MinFinal calls
+MinFinal == 0
 FILENAME_MAX == 65536
 \* byte length of a name label
 NameLen(n) == CASE n = "LONG"  -> 65536
@@ -202,7 +204,7 @@ Next ==
               /\ AddF(n, len)
      \/ /\ "flush" \in Calls /\ Flush
      \/ /\ "finalize" \in Calls
-        /\ (OnlyValid => (wst = "open" /\ opened = {}))
+        /\ (OnlyValid => (wst = "open" /\ opened = {} /\ nops >= MinFinal))
         /\ Finalize
 Spec == Init /\ [][Next]_vars
 
